@@ -53,6 +53,7 @@ def run(ctx, build):
                 view = ('file_order', 'sorted', 'toggled_to_sorted', 'toggled_twice')[li % 4]
                 with common.quiet():
                     u = usid.USIDataset(main, sort_dims=(view == 'sorted'))
+                    gen.Bystander.get(ctx.tmp).touch()
                     if view.startswith('toggled'):
                         u.toggle_sorting()
                     if view == 'toggled_twice':
